@@ -4,7 +4,10 @@
 package ipfix
 
 //@ globalinv shardNo == 32
+// the template map of a shard may only be touched under the shard's RWMutex (C10)
+//@ guarded TemplatesShard.Templates
 //@ globalinv errUknownMarshalDataType != nil
+//@ globalinv errNotAvail != nil && errMCInterfaceNotAvail != nil
 
 //@ pred rdr(r *reader.Reader) = r != nil && inv(r)
 //@ pred nonfatal(e error) = e != nil && typeid(e) == tyof(nonfatalError)
@@ -273,6 +276,7 @@ package ipfix
 
 // a cache that decoding can use without crashing, whatever file content it was loaded from (C11, C01)
 //@ func GetCache
+//@   opt nolock the cache being loaded or built is not shared before GetCache returns
 //@   opt replayprobe result.retrieve(300, net.IP{10, 0, 0, 1})
 //@   opt replayimports net
 //@   ensures wellFormed(result)
@@ -281,9 +285,22 @@ package ipfix
 //@     decreases 32 - i
 
 //@ func (MemCache).valid
+//@   opt nolock called from GetCache on a cache that is not shared yet
 //@   ensures result ==> wellFormed(m)
 //@   loop 1
 //@     invariant len(m) == 32 && (forall j :: m.off <= j && j < m.off + range_i ==> m.arr[j] != nil && !m.arr[j].Templates.isnil)
 
 //@ func LoadExtElements
 //@   modifies InfoModel
+
+// Dump marshals every shard by reflection: all shards must be read-locked across json.Marshal (C10, C15)
+//@ func (MemCache).Dump
+//@   requires wellFormed(m)
+
+//@ func NewRPC
+//@   ensures result != nil && result.mCache == mCache
+//@ func (*IRPC).Get
+//@   requires wellFormed(r.mCache) && resp != nil
+//@   ensures err == nil <==> cacheHas(r.mCache, req.IP, req.ID)
+//@   ensures err == nil ==> val(resp) == cacheGet(r.mCache, req.IP, req.ID)
+//@   modifies resp
